@@ -3,7 +3,7 @@
 // extracted Coq model, and evaluates the property's own predicates (exact big-integer /
 // big-rational arithmetic, independent of the model) on the implementation's results.
 //
-//	D k s n scaleBits offsetBits raw start variant muxbits ; T:gotype v   decode of a standard signal (k: c,f,i,d;
+//	D k s n scaleBits offsetBits raw start variant muxbits be ; T:gotype v   decode of a standard signal (k: c,f,i,d;
 //	                                          variant = how the type was obtained: constructor, Clone, UpdateSigned, setters)
 //	N n cnt (name idx)* raw ; name|-1                 decode of an enum signal
 //	R k s n ; minBits maxBits                         type range (k: i,d)
@@ -177,7 +177,8 @@ type decoder struct {
 	start   int
 	msg     *acmelib.Message
 	variant int
-	muxBits int // size of the multiplexer signal placed in front of the signal (0 = none)
+	muxBits int  // size of the multiplexer signal placed in front of the signal (0 = none)
+	be      bool // the message is big endian (the signal then crosses a byte boundary)
 }
 
 // muxInFront: every third decoder whose signal leaves room puts a multiplexer signal at bit 0 of
@@ -212,10 +213,26 @@ func newDecoder(ts typSpec, start int) *decoder {
 	if start+ts.size > 64 {
 		start = 64 - ts.size
 	}
-	return newDecoderV(ts, start, variantCounter%nVariants, mb)
+	// every second decoder of a signal of at least 2 bits lives in a big-endian message, across a byte
+	// boundary; one in four of those ends exactly on a byte boundary, so that over the runs every
+	// alignment class start%8 x (start+size)%8 x byte order is decoded
+	be := false
+	if ts.size >= 2 && (variantCounter/3)%2 == 1 {
+		cands := []int{}
+		for st := mb; st+ts.size <= 64; st++ {
+			if crossesByte(st, ts.size) && ((variantCounter/6)%4 != 0 || (st+ts.size)%8 == 0) {
+				cands = append(cands, st)
+			}
+		}
+		if len(cands) > 0 {
+			be = true
+			start = cands[(start*7+variantCounter)%len(cands)]
+		}
+	}
+	return newDecoderV(ts, start, variantCounter%nVariants, mb, be)
 }
 
-func newDecoderV(ts typSpec, start, variant, muxBits int) *decoder {
+func newDecoderV(ts typSpec, start, variant, muxBits int, be bool) *decoder {
 	typ, err := mkType(ts, variant)
 	if err != nil {
 		panic(err)
@@ -225,9 +242,15 @@ func newDecoderV(ts typSpec, start, variant, muxBits int) *decoder {
 		panic(err)
 	}
 	msg := acmelib.NewMessage("m", 1, 8)
+	if be && variant%2 == 0 {
+		msg.SetByteOrder(acmelib.MessageByteOrderBigEndian) // before the placements ...
+	}
 	placeMux(msg, muxBits)
 	if err := msg.InsertSignal(sig, start); err != nil {
 		panic(err)
+	}
+	if be && variant%2 == 1 {
+		msg.SetByteOrder(acmelib.MessageByteOrderBigEndian) // ... or after them
 	}
 	if variant == 4 && ts.kind != 'f' {
 		// use the type once with the other signedness, then restore it
@@ -238,8 +261,29 @@ func newDecoderV(ts typSpec, start, variant, muxBits int) *decoder {
 		}()
 		typ.UpdateSigned(ts.signed)
 	}
-	return &decoder{ts, start, msg, variant, muxBits}
+	return &decoder{ts, start, msg, variant, muxBits, be}
 }
+
+// payloadBE: the signal occupies the big-endian positions start .. start+size-1 (counted most
+// significant bit first through the 8 bytes): the payload read as one big-endian number has the raw
+// value at bits 64-start-size .. 63-start
+func payloadBE(raw uint64, size, start int, noise uint64) []byte {
+	mask := ^uint64(0)
+	if size < 64 {
+		mask = (uint64(1) << size) - 1
+	}
+	sh := uint(64 - start - size)
+	word := (noise &^ (mask << sh)) | ((raw & mask) << sh)
+	data := make([]byte, 8)
+	for i := 0; i < 8; i++ {
+		data[i] = byte(word >> (8 * (7 - i)))
+	}
+	return data
+}
+
+// crossesByte: a big-endian signal that fits in one byte is the open C02 finding D08; C03 places its
+// big-endian signals across at least one byte boundary
+func crossesByte(start, size int) bool { return start/8 != (start+size-1)/8 }
 
 func payload(raw uint64, size, start int, noise uint64) []byte {
 	mask := ^uint64(0)
@@ -260,7 +304,11 @@ func (d *decoder) run(raw, noise uint64) (dec *acmelib.SignalDecoding, pan strin
 			pan = fmt.Sprint(r)
 		}
 	}()
-	res := d.msg.SignalLayout().Decode(payload(raw, d.ts.size, d.start, noise))
+	data := payload(raw, d.ts.size, d.start, noise)
+	if d.be {
+		data = payloadBE(raw, d.ts.size, d.start, noise)
+	}
+	res := d.msg.SignalLayout().Decode(data)
 	if len(res) != 1 || res[0] == nil {
 		return nil, fmt.Sprintf("Decode returned %d results", len(res))
 	}
@@ -408,10 +456,11 @@ func b2i(b bool) int {
 
 func decodeCase(rc *recorder, d *decoder, raw, noise uint64, cat string) {
 	ts := d.ts
-	in := fmt.Sprintf("D %c %d %d %d %d %d %d %d %d", ts.kind, b2i(ts.signed), ts.size,
-		math.Float64bits(ts.scale), math.Float64bits(ts.offset), raw, d.start, d.variant, d.muxBits)
+	in := fmt.Sprintf("D %c %d %d %d %d %d %d %d %d %d", ts.kind, b2i(ts.signed), ts.size,
+		math.Float64bits(ts.scale), math.Float64bits(ts.offset), raw, d.start, d.variant, d.muxBits, b2i(d.be))
 	top := ts.signed && (raw>>(ts.size-1))&1 == 1
 	nontriv := top || ts.offset != 0 || ts.scale != 1
+	rc.hist[fmt.Sprintf("align-%s-%d-%d", map[bool]string{false: "le", true: "be"}[d.be], d.start%8, (d.start+ts.size)%8)]++
 	dec, pan := d.run(raw, noise)
 	key := uint64(ts.size)<<56 | (raw & (1<<56 - 1))
 	sg := "unsigned"
@@ -461,6 +510,9 @@ func decodeCase(rc *recorder, d *decoder, raw, noise uint64, cat string) {
 		}
 		if d.muxBits != 0 {
 			via += "-behind-multiplexer"
+		}
+		if d.be {
+			via += fmt.Sprintf("-big-endian-start%d-end%d", d.start%8, (d.start+ts.size)%8)
 		}
 		rc.fail("c03-decode-"+kindName(ts.kind)+"-"+sg+shape+via, key, line,
 			fmt.Sprintf("size %d raw %d scale %g offset %g (type obtained by %s): decoded %s, raw*scale+offset rule gives %s", ts.size, raw, ts.scale, ts.offset, variantName[d.variant], obs, exp))
@@ -1223,7 +1275,7 @@ func replay(rc *recorder, line string) {
 		if len(f) > 9 {
 			mb = atoi(f[9])
 		}
-		d := newDecoderV(ts, atoi(f[7]), variant, mb)
+		d := newDecoderV(ts, atoi(f[7]), variant, mb, len(f) > 10 && f[10] == "1")
 		decodeCase(rc, d, atou(f[6]), 0, "replay")
 	case "R":
 		rangeCase(rc, f[1][0], f[2] == "1", atoi(f[3]))
